@@ -285,7 +285,7 @@ def case_propagate(E, p):
     # the library evaluates the kernel phase pi*lambda*dz*k^2 in float32: its rounding error is about
     # eps32 * (largest phase), which for low energies on fine grids reaches thousands of radians; the
     # additivity comparison is conditioned by that phase, not by the operator
-    lam = 12.3984244 / math.sqrt(p["energy"] * (2 * 510998.95 + p["energy"]))
+    lam = 12398.4244 / math.sqrt(p["energy"] * (2 * 510998.95 + p["energy"]))
     kmax2 = (0.5 / samp[0]) ** 2 + (0.5 / samp[1]) ** 2
     phase = math.pi * lam * (abs(thick[0]) + abs(thick[1])) * kmax2
     if not r <= TOL_C64_ADD + 8 * 1.2e-7 * phase:
